@@ -346,6 +346,7 @@ package kernel
 
 //@ func (node *Node) lastMintDistribution
 //@   property C25
+//@   trustpre NewIntegerFromString -- (C33) its argument "89.87671232" is a string constant; that it is a non-negative decimal is assumed
 //@   uses MintFloor
 //@   requires node != nil && !isnil(node.persistStore)
 //@   maypanic   -- a storage failure and a recorded batch below 1706 (corrupt store) are fatal by design
@@ -375,9 +376,8 @@ package kernel
 //@     forall i int :: 0 <= i && i < len(node.acceptedNodeStateSequences) ==> PayeesOK(node.acceptedNodeStateSequences[i].NodesWithoutState)
 
 //@ -- ReadLastConsensusSnapshotWithHack: reads the store (and panics on a storage failure); the snapshot it returns exists.
-//@ assume func (node *Node) ReadLastConsensusSnapshotWithHack
-//@   modifies nothing
-//@   ensures result0 != nil && !fresh(result0)
+//@ -- (node *Node) ReadLastConsensusSnapshotWithHack: ONE assumed contract, in zz_contracts_c28_verif.go (it carries this file's clause
+//@ -- `result0 != nil && !fresh(result0)` as well; a second assumed contract here shadowed C28's and broke validateConsensusTransactionReferences)
 
 //@ func (node *Node) buildUniversalMintTransaction
 //@   property C25
